@@ -27,9 +27,13 @@ def models():
               irm.op('EMBEDDING_LOOKUP', 'w4', [])]),
     ]
     from vf import modes
-    for prefix, ops in specs:
+    specs.append(('a_', [irm.op('FULLY_CONNECTED', 'bias_relu')], 'R3'))
+    for spec_ in specs:
+      prefix, ops = spec_[0], spec_[1]
       ir = {'subgraphs': [{'ops': ops, 'exports': [], 'prefix': prefix}],
             'pool': 0}
+      if len(spec_) > 2:
+        ir['x'] = spec_[2]
       b = irm.build(ir)
       qt = L.quantizer.Quantizer(b.model, [modes.rule('.*', '*', 'SRQ8a')])
       cal = qt.calibrate([b.input_data(0, 'mix')])
@@ -39,7 +43,7 @@ def models():
 
 
 def plan(tier, seed):
-  evs = rs.events(tier)
+  evs = rs.events(tier, blk=True)
   depth = 3 if tier == 'quick' else 4
   cases = [{'first': i, 'depth': depth, 'tier': tier} for i in range(len(evs))]
   cases.append({'files': True, 'tier': tier})
@@ -160,7 +164,7 @@ def run_case(case, note, skip):
     res['traces'] = res['evals']
     res['transitions'] = res['evals']
     return res
-  evs = rs.events(case['tier'])
+  evs = rs.events(case['tier'], blk=True)
   by_label = {e['label']: e for e in evs}
   fails, tables = rs.explore(case['first'], case['depth'], evs,
                              make_visit(by_label), res, only)
